@@ -28,7 +28,22 @@ type N struct {
 	IterN    int    // number of elements (0-4)
 	IterVar  string
 	Children []*N
-	Err      string // "" | name | enabled | range : a template error injected in this role
+	Err      string // "" | name | enabled | range | instance : a template error injected in this role (instance: only where ErrVar is a,b,c,d or 0)
+	ErrVar   string
+	DepVar   string // iterator only: the number of elements depends on this enclosing iteration variable (depCount)
+	VarRef   string // the role defines vars.v<Base> = "{{ VarRef }}x" (a reference to an iteration variable of this or an enclosing role)
+}
+
+// depCount: number of elements of a dependent iterator as a function of the enclosing iteration value
+var depCount = map[string]int{"a": 1, "b": 3, "c": 2, "d": 0, "0": 2, "1": 0, "2": 3, "3": 1}
+var depOrder = []string{"a", "b", "c", "d", "0", "1", "2", "3"}
+
+func depExpr(v string, render func(n int) string) string {
+	e := render(0)
+	for i := len(depOrder) - 1; i >= 0; i-- {
+		e = fmt.Sprintf("%s == '%s' ? %s : (%s)", v, depOrder[i], render(depCount[depOrder[i]]), e)
+	}
+	return "{{ " + e + " }}"
 }
 
 type Case struct {
@@ -62,16 +77,25 @@ func (n *N) yaml(sb *strings.Builder, indent string, cls string, incl string) {
 	switch n.Iter {
 	case "range":
 		r := fmt.Sprintf("{{ lst%d }}", n.IterN)
+		if n.DepVar != "" {
+			r = depExpr(n.DepVar, func(k int) string { return fmt.Sprintf("lst%d", k) })
+		}
 		if n.Err == "range" {
 			r = "{{ no_such_list }}"
 		}
 		fmt.Fprintf(sb, "%s  for:\n%s    range: \"%s\"\n%s    var: %s\n", indent, indent, r, indent, n.IterVar)
 	case "beginend":
 		e := fmt.Sprintf("%d", n.IterN-1)
+		if n.DepVar != "" {
+			e = depExpr(n.DepVar, func(k int) string { return fmt.Sprintf("%d", k-1) })
+		}
 		if n.Err == "range" {
 			e = "{{ no_such_end }}"
 		}
 		fmt.Fprintf(sb, "%s  for:\n%s    begin: \"0\"\n%s    end: \"%s\"\n%s    var: %s\n", indent, indent, indent, e, indent, n.IterVar)
+	}
+	if n.VarRef != "" {
+		fmt.Fprintf(sb, "%s  vars:\n%s    v%s: \"{{ %s }}x\"\n", indent, indent, n.Base, n.VarRef)
 	}
 	switch n.Kind {
 	case "agg":
@@ -109,7 +133,11 @@ func expand(nodes []*N, prefix string, bound map[string]string, included []*N, o
 				continue
 			}
 			inst, names = nil, nil
-			for i := 0; i < n.IterN; i++ {
+			cnt := n.IterN
+			if n.DepVar != "" {
+				cnt = depCount[bound[n.DepVar]]
+			}
+			for i := 0; i < cnt; i++ {
 				e := elems[i%4]
 				if n.Iter == "beginend" {
 					e = fmt.Sprintf("%d", i)
@@ -124,8 +152,16 @@ func expand(nodes []*N, prefix string, bound map[string]string, included []*N, o
 			}
 		}
 		for i, b := range inst {
-			if n.Err != "" {
+			if n.Err != "" && (n.Err != "instance" || strings.Contains("abcd0", b[n.ErrVar])) {
 				*reached = true
+			}
+			if n.VarRef != "" {
+				b2 := map[string]string{}
+				for k, v := range b {
+					b2[k] = v
+				}
+				b2["v"+n.Base] = b[n.VarRef] + "x"
+				b = b2
 			}
 			path := prefix + "." + names[i]
 			switch n.Kind {
@@ -159,7 +195,7 @@ var cores coreSet
 func getCores() (*coreSet, error) {
 	mk := func(flags []string, name string) (*simworld.World, error) {
 		ag, det := simworld.DefaultAgents()
-		return simworld.NewWorld(simworld.Options{Agents: ag, Detectors: det, CoreFlags: flags, ScratchName: name})
+		return simworld.NewWorld(simworld.Options{Agents: ag, Detectors: det, CoreFlags: flags, ScratchName: name, Race: os.Getenv("VERIF_RACE") != ""})
 	}
 	if cores.on == nil || !cores.on.CoreAlive() {
 		if cores.on != nil {
@@ -199,7 +235,7 @@ func closeCores() {
 func dump(r *pb.RoleInfo, out *[]string) {
 	keys := []string{}
 	for k := range r.ConsolidatedStack {
-		if strings.HasPrefix(k, "it") || strings.HasPrefix(k, "f") && len(k) == 2 || strings.HasPrefix(k, "lst") {
+		if strings.HasPrefix(k, "it") || strings.HasPrefix(k, "f") && len(k) == 2 || strings.HasPrefix(k, "lst") || strings.HasPrefix(k, "vr") {
 			keys = append(keys, k)
 		}
 	}
@@ -253,7 +289,7 @@ func run(c Case) (res vh.Result) {
 		return false
 	}
 	hasErr = anyErr(c.Root) || anyErr(c.Included)
-	iters, disabled := 0, 0
+	iters, disabled, deps, refs := 0, 0, 0, 0
 	var count func(ns []*N)
 	count = func(ns []*N) {
 		for _, x := range ns {
@@ -262,6 +298,12 @@ func run(c Case) (res vh.Result) {
 			}
 			if !enabledTruth[x.Enabled] {
 				disabled++
+			}
+			if x.DepVar != "" {
+				deps++
+			}
+			if x.VarRef != "" {
+				refs++
 			}
 			count(x.Children)
 		}
@@ -278,6 +320,12 @@ func run(c Case) (res vh.Result) {
 	}
 	if hasErr {
 		res.Classes = append(res.Classes, "injected-error")
+	}
+	if deps > 0 {
+		res.Classes = append(res.Classes, "range-depends-on-outer-iteration")
+	}
+	if refs > 0 {
+		res.Classes = append(res.Classes, "cross-level-variable-reference")
 	}
 	wantPaths := []string{wf}
 	for _, r := range want {
@@ -309,6 +357,30 @@ func run(c Case) (res vh.Result) {
 		env, cerr := w.NewEnv(wf, nil, 60*time.Second)
 		if crash := w.CoreCrash(); crash != "" {
 			return fail("core-crash", "the core died while loading the workflow: %s", crash)
+		}
+		for _, blk := range strings.Split(w.RaceReports(), "==================") {
+			// only the two conflicting accesses (the part before the goroutine creation stacks) decide whose race it is
+			head := blk
+			if i := strings.Index(head, "Goroutine "); i >= 0 {
+				head = head[:i]
+			}
+			// the racing accesses themselves (top frame of each of the two stacks) must be in the template processing code
+			fn := ""
+			lines := strings.Split(head, "\n")
+			for li, l := range lines {
+				if (strings.Contains(l, " at 0x") && strings.Contains(l, "by goroutine")) && li+1 < len(lines) {
+					top := strings.TrimSpace(lines[li+1])
+					if strings.Contains(top, "Control/core/workflow.") || strings.Contains(top, "Control/configuration/template.") {
+						fn = strings.TrimSuffix(top[strings.LastIndex(top, "/")+1:], "()")
+					}
+				}
+			}
+			if fn != "" && (strings.Contains(head, "ProcessTemplates") || strings.Contains(head, "expandTemplate")) {
+				if len(blk) > 3500 {
+					blk = blk[:3500]
+				}
+				return fail("data-race:"+fn, "data race in the concurrent template processing (core %d): %s", ci, blk)
+			}
 		}
 		if hasErr {
 			if cerr == nil {
@@ -387,7 +459,7 @@ func run(c Case) (res vh.Result) {
 
 var enabledChoices = []string{"", "", "", "true", "false", "{{ fa }}", "{{ fb }}", "{{ fc == 'x' }}", "{{ fc == 'y' }}", " true ", "1"}
 
-func genNode(t *rapid.T, depth int, ctr *int, allowInclude bool) *N {
+func genNode(t *rapid.T, depth int, ctr *int, allowInclude bool, encl []string) *N {
 	*ctr++
 	n := &N{Base: fmt.Sprintf("r%d", *ctr), Enabled: rapid.SampledFrom(enabledChoices).Draw(t, "enabled")}
 	kinds := []string{"task", "task", "call"}
@@ -402,11 +474,18 @@ func genNode(t *rapid.T, depth int, ctr *int, allowInclude bool) *N {
 		n.Iter = rapid.SampledFrom([]string{"range", "beginend"}).Draw(t, "iterKind")
 		n.IterN = rapid.IntRange(0, 4).Draw(t, "iterN")
 		n.IterVar = fmt.Sprintf("it%d", depth)
+		if len(encl) > 0 && rapid.IntRange(0, 1).Draw(t, "dependent") == 0 {
+			n.DepVar = rapid.SampledFrom(encl).Draw(t, "depVar")
+		}
+		encl = append(append([]string{}, encl...), n.IterVar)
+	}
+	if len(encl) > 0 && rapid.IntRange(0, 2).Draw(t, "hasVarRef") == 0 {
+		n.VarRef = rapid.SampledFrom(encl).Draw(t, "varRef")
 	}
 	if n.Kind == "agg" {
 		k := rapid.IntRange(1, 3).Draw(t, "children")
 		for i := 0; i < k; i++ {
-			n.Children = append(n.Children, genNode(t, depth-1, ctr, allowInclude))
+			n.Children = append(n.Children, genNode(t, depth-1, ctr, allowInclude, encl))
 		}
 	}
 	return n
@@ -417,11 +496,11 @@ func gen(t *rapid.T) Case {
 	ctr := 0
 	k := rapid.IntRange(1, 3).Draw(t, "rootChildren")
 	for i := 0; i < k; i++ {
-		c.Root = append(c.Root, genNode(t, 3, &ctr, true))
+		c.Root = append(c.Root, genNode(t, 3, &ctr, true, nil))
 	}
 	ki := rapid.IntRange(1, 2).Draw(t, "inclChildren")
 	for i := 0; i < ki; i++ {
-		c.Included = append(c.Included, genNode(t, 1, &ctr, false))
+		c.Included = append(c.Included, genNode(t, 1, &ctr, false, nil))
 	}
 	if rapid.IntRange(0, 4).Draw(t, "injectError") == 0 {
 		var all []*N
@@ -440,19 +519,24 @@ func gen(t *rapid.T) Case {
 		}
 		x.Err = rapid.SampledFrom(kinds).Draw(t, "errKind")
 	}
-	// keep the expansion small enough to deploy: shorten the longest iterator until at most 24 leaves remain
+	capExpansion(&c, 24)
+	return c
+}
+
+// capExpansion keeps the expansion small: it shortens the longest iterator until at most max roles remain
+func capExpansion(c *Case, max int) {
 	for {
 		var want []expRole
 		reached := false
 		expand(c.Root, "x", map[string]string{}, c.Included, &want, &reached)
-		if len(want) <= 24 {
+		if len(want) <= max {
 			break
 		}
 		var best *N
 		var visit func(ns []*N)
 		visit = func(ns []*N) {
 			for _, x := range ns {
-				if x.Iter != "" && (best == nil || x.IterN > best.IterN) {
+				if x.Iter != "" && x.DepVar == "" && (best == nil || x.IterN > best.IterN) {
 					best = x
 				}
 				visit(x.Children)
@@ -461,11 +545,26 @@ func gen(t *rapid.T) Case {
 		visit(c.Root)
 		visit(c.Included)
 		if best == nil || best.IterN <= 1 {
-			break
+			// only dependent iterators are left: make one of them independent
+			var dep *N
+			var find func(ns []*N)
+			find = func(ns []*N) {
+				for _, x := range ns {
+					if x.DepVar != "" && dep == nil {
+						dep = x
+					}
+					find(x.Children)
+				}
+			}
+			find(c.Root)
+			if dep == nil {
+				break
+			}
+			dep.DepVar, dep.IterN = "", 1
+			continue
 		}
 		best.IterN--
 	}
-	return c
 }
 
 func TestLoad(t *testing.T) {
@@ -487,6 +586,10 @@ func TestLoadFixed(t *testing.T) {
 		{Kind: "task", Base: "none", Iter: "range", IterN: 0, IterVar: "it3"},
 	}
 	vh.Fixed(t, prop, "nested-iterators-disabled-include", Case{Root: tree, Included: []*N{leafN("inc1", ""), {Kind: "call", Base: "inc2", Iter: "range", IterN: 2, IterVar: "it1"}}}, vh.Confirmed(run))
+	dep := []*N{{Kind: "agg", Base: "det", Iter: "range", IterN: 3, IterVar: "it3", Children: []*N{
+		{Kind: "task", Base: "r1", Iter: "beginend", IterVar: "it2", DepVar: "it3", VarRef: "it3"},
+		{Kind: "agg", Base: "r2", Iter: "range", IterVar: "it2", DepVar: "it3", Children: []*N{{Kind: "task", Base: "r3", VarRef: "it2"}, {Kind: "call", Base: "r4", Iter: "range", IterVar: "it1", DepVar: "it2"}}}}}}
+	vh.Fixed(t, prop, "inner-range-depends-on-outer-variable", Case{Root: dep, Included: []*N{leafN("inc", "")}}, vh.Confirmed(run))
 	bad := []*N{{Kind: "agg", Base: "a", Children: []*N{leafN("ok", ""), {Kind: "agg", Base: "b", Children: []*N{{Kind: "task", Base: "bad", Err: "name"}, leafN("ok2", "")}}}}, leafN("ok3", "")}
 	vh.Fixed(t, prop, "iterator-with-enabled-expression", Case{Root: []*N{{Kind: "task", Base: "e", Enabled: "{{ fa }}", Iter: "range", IterN: 2, IterVar: "it3"}, leafN("k", "")}, Included: []*N{leafN("inc", "")}}, vh.Confirmed(run))
 	vh.Fixed(t, prop, "aggregator-with-only-an-empty-iterator", Case{Root: []*N{{Kind: "agg", Base: "a", Children: []*N{{Kind: "task", Base: "e", Iter: "range", IterN: 0, IterVar: "it2"}}}, leafN("k", "")}, Included: []*N{leafN("inc", "")}}, vh.Confirmed(run))
